@@ -46,6 +46,9 @@ type c26Case struct {
 	Streams     [][]swKV    `json:"streams"` // per stream: ascending keys, descending versions
 	Writes      [][]swChunk `json:"writes"`  // per StreamWriter.Write call: chunks of streams
 	Rounds      int         `json:"rounds"`  // incremental mode: the stream set is written this many times with rising versions
+	// LowVersions (managed incremental mode): streamed versions are odd numbers counted from zero,
+	// the pre-existing data sits at even versions - a stream may back-fill versions BELOW existing ones
+	LowVersions bool `json:"lowversions,omitempty"`
 }
 
 func genC26(t *rapid.T) c26Case {
@@ -94,6 +97,10 @@ func genC26(t *rapid.T) c26Case {
 			c.Pre = append(c.Pre, txn)
 		}
 		c.PreShape = rapid.IntRange(0, 5).Draw(t, "preshape")
+		if c.Spec.Managed && rapid.Bool().Draw(t, "lowversions") {
+			c.LowVersions = true
+			c.Rounds = 1
+		}
 	} else {
 		c.Rounds = 1
 	}
@@ -223,6 +230,14 @@ func compareWithModel(db *badger.DB, managed bool, m *model.Model, opt map[strin
 			gi++
 			dead := m.Dead(w)
 			if g.dead != dead || g.expiresAt != w.ExpiresAt || (!dead && (!bytes.Equal(g.val, w.Val) || g.meta != w.UserMeta)) {
+				if os.Getenv("VERIF_DUMP") != "" {
+					it := txn.NewIterator(badger.IteratorOptions{AllVersions: true})
+					for it.Rewind(); it.Valid(); it.Next() {
+						isPtr, fid, ln, off := badger.VerifItemVptr(it.Item())
+						fmt.Fprintf(os.Stderr, "TRACE item %x@%d meta=%x vptr=%v fid=%d len=%d off=%d size=%d\n", it.Item().Key(), it.Item().Version(), badger.VerifItemMeta(it.Item()), isPtr, fid, ln, off, it.Item().ValueSize())
+					}
+					it.Close()
+				}
 				return fmt.Errorf("%s: key %x version #%d: got %d dead=%v len=%d meta=%x exp=%d, want %d dead=%v len=%d meta=%x exp=%d", label, []byte(k), i,
 					g.ver, g.dead, len(g.val), g.meta, g.expiresAt, w.Ts, dead, len(w.Val), w.UserMeta, w.ExpiresAt)
 			}
@@ -309,7 +324,7 @@ func runC26(c c26Case, rec *evid.Rec) (core.Result, error) {
 			}
 		}
 		if managed {
-			base++
+			base += 2
 			err = txn.CommitAt(base, nil)
 		} else {
 			err = txn.Commit()
@@ -367,7 +382,12 @@ func runC26(c c26Case, rec *evid.Rec) (core.Result, error) {
 				st := c.Streams[ch.Stream]
 				for i := 0; i < ch.N && pos[ch.Stream] < len(st); i++ {
 					seq++
-					kv, v := c.kvOf(st[pos[ch.Stream]], base, clock, seq)
+					e := st[pos[ch.Stream]]
+					sbase := base
+					if c.LowVersions {
+						sbase, e.Ver = 0, 2*e.Ver+1
+					}
+					kv, v := c.kvOf(e, sbase, clock, seq)
 					kv.StreamId = uint32(ch.Stream + 1)
 					badger.KVToBuffer(kv, buf)
 					m.Write(kv.Key, v)
@@ -448,6 +468,7 @@ func runC26(c c26Case, rec *evid.Rec) (core.Result, error) {
 	cls(c.Incremental, "incremental")
 	cls(c.Incremental && len(c.Pre) > 0, "incremental_on_existing_data")
 	cls(c.Rounds > 1, "two_incremental_rounds")
+	cls(c.LowVersions && len(c.Pre) > 0, "stream_backfills_below_existing_versions")
 	cls(len(c.Streams) > 1, "several_streams")
 	cls(managed, "managed")
 	cls(c.Spec.InMemory, "inmemory")
@@ -464,6 +485,6 @@ func runC26(c c26Case, rec *evid.Rec) (core.Result, error) {
 
 func TestC26_StreamWriter(t *testing.T) {
 	core.Run(t, "C26", "streamwriter",
-		"rapid-generated stream sets: the sorted key pool is cut into 1-4 contiguous non-overlapping streams; per key 1-3 versions (descending), values around the value threshold and far above it, delete markers, user meta, TTLs; every stream is chunked and the chunks of different streams are interleaved into StreamWriter.Write calls, done markers on/off; Prepare on an empty database or PrepareIncremental on generated pre-existing data (flushed; left in L0, compacted once or twice), one or two incremental rounds with rising versions; managed/normal, in-memory, encryption, compression. Oracle (reference model): after Flush and again after Close + re-open the all-versions view and every Get equal exactly the streamed entries plus the pre-existing data, the level structure validates, and (normal mode) the next commit is visible and gets a version above everything stored. Non-trivial = >=2 entries over >=2 Write calls.",
+		"rapid-generated stream sets: the sorted key pool is cut into 1-4 contiguous non-overlapping streams; per key 1-3 versions (descending), values around the value threshold and far above it, delete markers, user meta, TTLs; every stream is chunked and the chunks of different streams are interleaved into StreamWriter.Write calls, done markers on/off; Prepare on an empty database or PrepareIncremental on generated pre-existing data (flushed; left in L0, compacted once or twice), one or two incremental rounds with rising versions, or (managed mode) a stream that back-fills versions below the existing ones; managed/normal, in-memory, encryption, compression. Oracle (reference model): after Flush and again after Close + re-open the all-versions view and every Get equal exactly the streamed entries plus the pre-existing data, the level structure validates, and (normal mode) the next commit is visible and gets a version above everything stored. Non-trivial = >=2 entries over >=2 Write calls.",
 		genC26, runC26)
 }
